@@ -8,7 +8,7 @@ namespace Gfs.Ops
 open Gfs Gfs.Proto
 
 def kindOf (k : String) : EntryKind :=
-  if k = "d" then .dir else if k = "l" then .linkFile else if k = "L" then .linkDir
+  if k = "d" then .dir else if k = "l" ∨ k = "v" then .linkFile else if k = "L" then .linkDir
   else if k = "x" then .dangling else .file
 
 def parseEntries (s : String) : List Entry :=
@@ -73,6 +73,9 @@ def dispatchDisk : List String → Option (Obs × Option Obs)
         (if !tame then [("~negzero", "1")] else []) ++
         (if o.single then [("cover", hexList (sortBytes (visible.map (pre ++ ·))))] else [])
     some (m, some sp)
+  | ["disk.root", _, _, _] =>
+    -- the real "/" is not described to the model: only "every result lies directly under /"
+    some ([("under", "1")], some [("under", "1")])
   | ["disk.find", st, omask, pat, dirok, ents] =>
     -- option mask: bit 0 StrictPadding, bit 1 SingleFiles (must not change a pattern lookup)
     let strict : String := if (int! omask) % 2 == 1 then "1" else "0"
